@@ -95,13 +95,13 @@ RhoOutcome(c, k, res) ==
 
 \* accumulator: per clause ok / viol counters, index of the first violating concretisation, what was observed there
 Clauses == <<"v", "s", "m", "p", "f">>
-NoObs == [st |-> "", ret |-> <<>>, nlog |-> 0, meta |-> 0, bst |-> "", bwhy |-> "", bret |-> <<>>, bnlog |-> 0]
+NoObs == [st |-> "", ret |-> <<>>, nlog |-> 0, meta |-> 0, hit |-> 0, bst |-> "", bwhy |-> "", bret |-> <<>>, bnlog |-> 0]
 Zero5 == [v |-> 0, s |-> 0, m |-> 0, p |-> 0, f |-> 0]
 Acc0 == [ok |-> Zero5, viol |-> Zero5, first |-> Zero5, obs |-> [v |-> NoObs, s |-> NoObs, m |-> NoObs, p |-> NoObs, f |-> NoObs],
          nrun |-> 0, ndone |-> 0, nerror |-> 0, nunspec |-> 0, nfuel |-> 0, nnan |-> 0, njobs |-> 0, steps |-> 0, bad |-> 0,
          whys |-> <<>>]
 ObsOf(res) == LET a == res[1] IN LET b == res[3] IN
-              [st |-> a.st, ret |-> a.ret, nlog |-> a.nlog, meta |-> a.meta, bst |-> b.st, bwhy |-> b.why, bret |-> b.ret, bnlog |-> b.nlog]
+              [st |-> a.st, ret |-> a.ret, nlog |-> a.nlog, meta |-> a.meta, hit |-> a.hit, bst |-> b.st, bwhy |-> b.why, bret |-> b.ret, bnlog |-> b.nlog]
 AddWhy(ws, w) == IF Len(ws) >= 3 \/ \E q \in 1..Len(ws) : ws[q] = w THEN ws ELSE Append(ws, w)
 Judge(c, k, res, acc) ==
   LET o == RhoOutcome(c, k, res) IN
